@@ -173,7 +173,8 @@ class AsyncRunner(AsyncRunnerTemplate):
                     )
 
         except PauseExecution as pause:
-            pause._partial_state = state  # type: ignore[attr-defined]
+            if getattr(pause, "_partial_state", None) is None:
+                pause._partial_state = state  # type: ignore[attr-defined]
             raise
         finally:
             # Reset concurrency limiter only if we set it
